@@ -103,6 +103,21 @@ def oracle_c04(stream):
         got += list(p)
         if msgs_out(got) != want:
             return ('route:resumed-loop', 'a loop left after one message and resumed gave %d messages, parse_all %d, for %r' % (len(got), len(ms), stream[:60]))
+        # a parser's messages are those of the bytes fed to IT: another parser alive at the same time, fed other bytes in between
+        # (two input ports), changes nothing
+        pa, pb = mido.Parser(), mido.Parser()
+        other = [0xf0, 5] + list(reversed(stream)) + [0x93, 7]
+        got, k, j = [], 0, 0
+        while k < len(stream):
+            step = 1 + (k * 7 + len(stream)) % 3
+            pa.feed(list(stream[k:k + step])); k += step
+            pb.feed(other[j:j + 2]); j += 2
+            if k % 2:
+                got += list(pa)
+                list(pb)
+        got += list(pa)
+        if msgs_out(got) != want:
+            return ('route:two-parsers', 'a parser fed %r in pieces, while another parser was fed other bytes in between, gave %r; alone it gives %r' % (stream[:60], msgs_out(got), want))
         if len(stream) <= 64:
             p = mido.Parser()
             got = []
@@ -398,4 +413,4 @@ IMPLS = {'parse': impl_parse, 'tokens': impl_tokens, 'pops': impl_pops, 'qops': 
 
 def job(j):
     tag, comp, cases = j
-    return tag, core.eval_cases(comp, cases, IMPLS[tag])
+    return tag, core.eval_cases(comp, cases, IMPLS[tag], repeat=100, fresh=True)
